@@ -8,7 +8,8 @@
    The JWT library (github.com/golang-jwt/jwt v3.2.1: parsing, HMAC verification, exp/nbf/iat)
    is an ORACLE: every token string of a case comes with the facts the harness knows
    from how it built the token.  Executable definitions only; proofs in proof/JwtProofs.v.
-   The model is faithful to the code as it is (including its defects). *)
+   The model is faithful to the code as it is, i.e. WITH the repair of finding C34/0 in
+   PostHandler (the upload's needle must equal the needle of the checked fid). *)
 From Coq Require Import List NArith ZArith Bool String Ascii Arith.
 Import ListNotations.
 Local Open Scope string_scope.
@@ -149,6 +150,8 @@ Record request := {
   rq_vid_ok : bool;        (* ORACLE: needle.NewVolumeId(vid) succeeds, vid from parseURLPath *)
   rq_fid_ok : bool;        (* ORACLE: n.ParsePath(fid) succeeds, fid from parseURLPath *)
   rq_upfid_ok : bool;      (* ORACLE: n.ParsePath(upload_fid path) succeeds *)
+  rq_same_needle : bool;   (* ORACLE: ParsePath(fid) succeeds and gives the same needle id and cookie
+                              as ParsePath(upload_fid path) — the repaired PostHandler's comparison *)
   rq_wl_pass : bool        (* the remote host is in the white list *)
 }.
 
@@ -205,7 +208,8 @@ Inductive hresult :=
 | BadRequest       (* 400 written, handler returns *)
 | NoRoute          (* the method is not served on this port: nothing is written *)
 | Panicked         (* a slice expression panics; net/http aborts the request *)
-| Proceed (vid fid : string).   (* the store is consulted for this volume / file id text *)
+| Proceed (vid fid : string).   (* the store is consulted for volume NewVolumeId(vid) and the needle
+                                   that ParsePath(fid) denotes *)
 
 Definition is_write_method (m : meth) : bool :=
   match m with POST | PUT | DELETE => true | _ => false end.
@@ -237,7 +241,10 @@ Definition post (tab : toktab) (cfg : config) (rq : request) : hresult :=
         | None => Panicked
         | Some ufid =>
             if negb (rq_upfid_ok rq) then BadRequest         (* n.ParsePath(fid) *)
-            else Proceed vid ufid                            (* topology.ReplicatedWrite *)
+            (* repair of finding C34/0: the needle built from the upload's own reading of the
+               path must be the needle that the checked fid denotes, else 400 *)
+            else if negb (rq_same_needle rq) then BadRequest
+            else Proceed vid fid                             (* topology.ReplicatedWrite on that needle *)
         end
   end.
 
@@ -293,12 +300,4 @@ Definition spec_allows (tab : toktab) (cfg : config) (rq : request) (presented :
   sempty key ||
   existsb (fun s => match lookup s tab with Some t => token_good key t | None => false end) presented.
 
-(* ---- trigger of known finding 0: an upload whose path is read differently by
-   parseURLPath (token check) and by CreateNeedleFromRequest (write) ---- *)
 Definition is_upload (m : meth) : bool := match m with POST | PUT => true | _ => false end.
-Definition trig_upload_target (rq : request) : bool :=
-  is_upload (rq_method rq) &&
-  match parse_url_path (rq_path rq), upload_fid (rq_path rq) with
-  | Some (_, fid), Some ufid => negb (String.eqb fid ufid)
-  | _, _ => false
-  end.
